@@ -55,6 +55,22 @@ def analyse(base, chk, fname, variant="distinct"):
     label = fname.replace("filippo.io/edwards25519", "ed") + (" [one object passed for all same-typed arguments / slice elements]" if variant == "shared" else "")
     r, traces = events_of(base, chk, fname, variant)
     chk.used(base.prog, fname, "effects / event extraction (" + r.desc + ")")
+    # sync.Pool: an object handed back with Put belongs to whichever goroutine Gets it next; any access to it later on the
+    # same path (a deferred or early Put while the object is still in use) is shared mutable state without synchronisation
+    uap = []
+    for p_ in r.paths:
+        put = {}
+        for ev in p_.log:
+            if ev[0] == "pool_put" and ev[3] is not None:
+                put[ev[3]] = True
+            elif ev[0] == "pool_get":
+                pass
+            elif ev[0] in ("r", "w") and ev[1] in put:
+                m_ = r.ex.meta.get(ev[1])
+                uap.append((ev[0], getattr(m_, "name", None) or str(ev[1])))
+    if any(ev[0] == "pool_put" for p_ in r.paths for ev in p_.log):
+        chk.fact("%s: no object is read or written after it was handed back to a sync.Pool with Put (another goroutine may already own it)" % label,
+                 not uap, [fname], "effects", detail=str(sorted(set(uap))[:4]))
     notret = [p.outcome for p in r.paths if p.outcome[0] != "ret"]
     if notret or not r.paths:
         # a path the engine could not follow to the end has unknown effects: the facts below would be vacuous for it
